@@ -12,7 +12,7 @@
       close state); [allow_payment] blind-signs the new close-state commitment and keeps (revocation-lock commitment,
       new-state commitment); [complete_payment] blind-signs the latter once the old revocation pair opens the former. *)
 From ZK Require Import Model.Field Model.Pedersen Model.PS Model.Schnorr Model.Range Model.Abacus Model.Amount
-  Model.Customer Model.Merchant.
+  Model.Customer Model.Merchant Model.Keygen.
 Local Open Scope fld_scope.
 
 Section Protocol.
@@ -22,6 +22,17 @@ Variable chal : list (atom K) -> K.
 
 (** [merchant::Config]: signing key pair, revocation-commitment parameters (h, [g]), range parameters *)
 Record mconfig := mkM { m_sk : skey K; m_pk : pkey K; m_hr : K; m_gr : K; m_rp : rparams K }.
+
+(** [merchant::Config::new]: [KeyPair::<5>::new], [PedersenParameters::<G1, 1>::new], [RangeConstraintParameters::new]
+    (a fresh [KeyPair::<1>] and one non-identity base per digit signature), over explicit streams: group draws and scalar
+    draws of each generator separately (the retry loops skip identity / zero draws; [None] = a stream ran out) *)
+Definition merchant_config_new (g1s scalars g2s : list K) (rev_draws : list K)
+           (rg1s rscalars rg2s : list K) (bases : list K) : option mconfig :=
+  match keygen_stream 5 g1s scalars g2s, pedersen_new_stream 1 rev_draws,
+        keygen_stream 1 rg1s rscalars rg2s, take_nonzero 128 bases with
+  | Some (sk, pk), Some (hr, [gr]), Some (rsk, rpk), Some (hs, _) => Some (mkM sk pk hr gr (range_params_new rsk rpk hs))
+  | _, _, _, _ => None
+  end.
 
 (** ** prover side with Fiat-Shamir: the challenge is the hash of the builders' first message *)
 Definition pay_prove (pk : pkey K) (rp : rparams K) (hr gr : K) (tok : sigt K) (old : list K) (cbz mbz : Z)
@@ -143,7 +154,7 @@ Definition ledger_run (l : Z * Z) (amounts : list Z) : Z * Z := fold_left ledger
 
 End Protocol.
 Arguments mkM {_}. Arguments m_sk {_}. Arguments m_pk {_}. Arguments m_hr {_}. Arguments m_gr {_}. Arguments m_rp {_}.
-Arguments pay_prove {_}. Arguments m_initialize {_}. Arguments m_activate {_}. Arguments m_allow_payment {_}.
+Arguments merchant_config_new {_}. Arguments pay_prove {_}. Arguments m_initialize {_}. Arguments m_activate {_}. Arguments m_allow_payment {_}.
 Arguments m_complete_payment {_}. Arguments mkED {_}. Arguments ed_nonce {_}. Arguments ed_lock {_}. Arguments ed_bfs {_}.
 Arguments ed_kbfs {_}. Arguments ed_ks {_}. Arguments ed_bfc {_}. Arguments ed_kbfc {_}. Arguments ed_kclose {_}.
 Arguments c_request {_}. Arguments mkSD {_}. Arguments sd_nonce {_}. Arguments sd_lock {_}. Arguments sd_pd {_}.
